@@ -334,11 +334,71 @@ def check_urls(ctx: Ctx, res: Result):
         shutil.rmtree(base, ignore_errors=True)
 
 
+def check_in_loop(ctx: Ctx, res: Result):
+    """a caller that is itself inside a running event loop (notebook, async driver) mixes the plugin's blocking calls
+    (sync_write / sync_read, which run on the library's re-entrant nested loop) with its coroutine calls (await
+    plugin.write / read, asyncio.gather of several): every completed write reads back exactly, a missing path is an error,
+    and the caller's loop keeps working afterwards"""
+    import shutil
+    from torchsnapshot.asyncio_utils import maybe_nested_loop
+    from torchsnapshot.io_types import ReadIO, WriteIO
+    from torchsnapshot.storage_plugin import url_to_storage_plugin
+    rng = ctx.rng
+    base = os.path.realpath(ctx.scratch("inloop"))
+    try:
+        for i in range(ctx.n(8, 40)):
+            root = os.path.join(base, f"r{i}")
+            names = rng.sample(["a", "d/b", "d/e/c", "x y", "0/m/w", "empty"], rng.randint(2, 5))
+            data = {n: (b"" if n == "empty" else bytes(rng.randrange(256) for _ in range(rng.choice([1, 7, 64])))) for n in names}
+            script = [rng.choice(["sync", "await"]) for _ in names]
+            problems = []
+
+            async def main():
+                plugin = url_to_storage_plugin(url_path=root)
+                for n, how in zip(names, script):
+                    if how == "sync":
+                        plugin.sync_write(WriteIO(path=n, buf=data[n]), event_loop=maybe_nested_loop())
+                    else:
+                        await plugin.write(WriteIO(path=n, buf=memoryview(data[n])))
+                # reads: the opposite style of the write, then a gather of everything, then a missing path
+                for n, how in zip(names, script):
+                    rio = ReadIO(path=n)
+                    if how == "sync":
+                        await plugin.read(rio)
+                    else:
+                        plugin.sync_read(rio, event_loop=maybe_nested_loop())
+                    if rio.buf.getvalue() != data[n]:
+                        problems.append(f"{n!r} written {how} read back {list(rio.buf.getvalue())[:6]} instead of {list(data[n])[:6]}")
+                rios = [ReadIO(path=n, byte_range=(0, len(data[n]))) for n in names]
+                await asyncio.gather(*[plugin.read(r) for r in rios])
+                for n, r in zip(names, rios):
+                    if r.buf.getvalue() != data[n]:
+                        problems.append(f"gathered ranged read of {n!r} differs")
+                try:
+                    await plugin.read(ReadIO(path="never/written"))
+                    problems.append("read of a missing path returned normally")
+                except FileNotFoundError:
+                    pass
+                await asyncio.sleep(0)          # the caller's own loop is still the running loop
+            try:
+                asyncio.run(main())
+            except Exception as e:  # noqa
+                problems.append(f"raised {type(e).__name__}: {str(e)[:120]}")
+            res.case({"kind": "in-loop", "names": names, "script": script}, nontrivial=True)
+            res.count("in_loop.script", "+".join(sorted(set(script))))
+            for pr in problems[:3]:
+                res.failures.append(Failure("C20:in-running-loop:" + ("raised" if pr.startswith("raised") else "wrong-bytes"),
+                                            f"caller inside a running event loop, writes {list(zip(names, script))}: {pr}", {"kind": "in-loop", "names": names, "script": script}))
+    finally:
+        shutil.rmtree(base, ignore_errors=True)
+
+
 def correspond(ctx: Ctx) -> Result:
     res = Result(rule=RULE)
     check_stream(ctx, res)
     check_fs(ctx, res)
     check_urls(ctx, res)
+    check_in_loop(ctx, res)
     return res
 
 
@@ -353,6 +413,10 @@ def replay(ctx: Ctx, data):
             return Failure("C20:stream-differs-from-BytesIO", f"{mv} vs {bio}", data)
         return None
     import shutil
+    if data["kind"] == "in-loop":
+        r = Result()
+        check_in_loop(Ctx(ctx.prop, ctx.tier, ctx.seed), r)
+        return r.failures[0] if r.failures else None
     if data["kind"] == "url":
         r = Result()
         check_urls(Ctx(ctx.prop, ctx.tier, ctx.seed), r)
